@@ -259,6 +259,21 @@ func driverRules(c *Ctx, r1, r2 string) {
 			"every return after the failure edge returns a provably non-nil error", "a return after failed "+s.name+" is not provably non-nil")
 	}
 
+	// (c') once SOP's phase 1 has run, the only way out without t.Rollback is the final `return nil`: any
+	// other exit (a timeout check, a cancelled context, ...) leaves SOP and the participants prepared
+	{
+		r := g.Reach([]int{p1sop[0].n.ID}, isRB, nil)
+		var offs []Offence
+		for _, n := range g.Nodes {
+			if r.Seen[n.ID] && n.Ret != nil && g.ClassifyReturn(n) != RetNil {
+				offs = append(offs, Offence{n, r.Path(n.ID)})
+			}
+		}
+		c.Offences(g, offs, r2, "Commit: every error exit after SOP's Phase1Commit passes Rollback", f.Decl.Pos(),
+			"after phase 1 started, only `return nil` is reachable without t.Rollback",
+			"Commit can return an error after phase 1 without calling t.Rollback: SOP's transaction stays begun with its phase-1 locks and staged nodes, and no participant is told to roll back")
+	}
+
 	// (d) Rollback fan-out
 	fr := w.Fn(kSPTRollback)
 	gr := w.G(fr)
